@@ -17,11 +17,18 @@ package fasthttp
 //@   ghost lastUntil int = 0
 //@   ghost inLoop bool = false
 //@   ghost pend int = 0
+//@   ghost allowed bool = false
 //@   on call HostClient.do:
 //@     requires[within-deadline] timeout > 0 ==> lastUntil > 0
-//@     effect sent = sent + 1
+//@     requires[retransmits-only-when-the-policy-said-retry] sent == 0 || allowed
+//@     effect sent = sent + 1; allowed = false
 //@   on call value:retryFunc -> r:
 //@     returns c.RetryIf == nil ? idem : ndRetry
+//@     effect allowed = (c.RetryIf == nil ? idem : ndRetry)
+//@   on call field:RetryIfErrUpstream -> rt, again:
+//@     effect allowed = again
+//@   on call field:RetryIfErr -> rt, again:
+//@     effect allowed = again
 //@   on call time.Until -> d:
 //@     effect lastUntil = d
 //@   on call time.Now:
@@ -34,6 +41,7 @@ package fasthttp
 //@     invariant[count]       sent == attempts && attempts < maxAttempts
 //@     invariant[pending]     pend == 1
 //@     invariant[stream-once] hasBodyStream ==> sent == 0
+//@     invariant[policy-allowed-another-attempt] sent == 0 || allowed
 //@     invariant[idem-only]   c.RetryIf == nil && c.RetryIfErr == nil && c.RetryIfErrUpstream == nil && !idem ==> sent == 0
 //@   ensures[bounded]             sent <= maxAttempts && (c.MaxIdemponentCallAttempts > 0 ? maxAttempts == c.MaxIdemponentCallAttempts : maxAttempts == 5)
 //@   ensures[body-stream-once]    hasBodyStream ==> sent <= 1
